@@ -70,7 +70,9 @@ Unregister(c) ==
     /\ UNCHANGED <<withs, gen, marks, base>> /\ Obs
     \* removing something that was registered before the innermost open block was entered breaks the discipline
     /\ disc' = (disc /\ (marks = <<>> \/ Len(stack') > marks[Len(marks)]))
-Enter(c) == /\ Len(stack) < MaxDepth
+\* MaxDepth bounds the registrations AND the nesting of blocks (a block whose converter was unregistered inside it
+\* stays open): with both bounds the state space is finite, so TLC can also check histories of any length
+Enter(c) == /\ Len(stack) < MaxDepth /\ Len(withs) < MaxDepth
             /\ stack' = Append(stack, c) /\ withs' = Append(withs, c)
             /\ UNCHANGED gen /\ out' = Out("enter", c, TRUE) /\ Obs
             /\ marks' = Append(marks, Len(stack))
